@@ -177,6 +177,63 @@ def python_arguments(R):
                     R.traces += 1
 
 
+LITERAL_VALUES = [
+    # (definitions, call, expansion, inputs): a literal passed as an argument and used as a VALUE is that value - same
+    # type, same content, usable like the value the expansion gives (compared, pickled)
+    ('T(w) = w >> `w`', 'T("ab")', '"ab" >> `"ab"`', ['ab', 'a', 'abc']),
+    ('T(w) = [w, `w`, `[w]`]', 'T("ab")', '["ab", `"ab"`, `["ab"]`]', ['ab']),
+    ('T(w) = w >> `w`', 'T(b"ab")', 'b"ab" >> `b"ab"`', [b'ab', b'a', b'abc']),
+    ('Word = b/[a-z]+/\nKw(w) = Word where `lambda x: x == w`', 'Kw(b"ab")', 'Word where `lambda x: x == b"ab"`', [b'ab', b'abc', b'a']),
+    ('Word = /[a-z]+/\nKw(w) = Word where `lambda x: x == w`', 'Kw("ab")', 'Word where `lambda x: x == "ab"`', ['ab', 'abc', 'a']),
+    ('T(w) = w >> `w`', 'T(0x61)', '0x61 >> `0x61`', [b'a', b'b']),
+    ('T(w, v) = w >> `v`', 'T(w="a", v="")', '"a" >> `""`', ['a']),
+]
+
+
+def literal_values(R):
+    import pickle
+    sys.path.insert(0, core.REPO)
+    from sourcer import Grammar
+    for named in (False, True):
+        for k, (defs, call, expansion, inputs) in enumerate(LITERAL_VALUES):
+            head = f'grammar c06lv{k}\n' if named else ''
+            case = {'call': head + f'start = {call}\n{defs}\n', 'expansion': f'start = {expansion}\n' + (defs.split('\n')[0] + '\n' if defs.startswith('Word') else '')}
+            try:
+                gc, ge = Grammar(case['call']), Grammar(case['expansion'])
+            except Exception as e:          # noqa
+                R.count('literal-values', (named, k))
+                R.counterexample('literal-values', 'call-site-rejected:' + type(e).__name__, case, 'two grammar modules', str(e)[:160])
+                continue
+
+            def obs(g, t):
+                try:
+                    v = g.parse(t)
+                except g.InputError as e:
+                    return ('error', type(e).__name__)
+                except Exception as e:      # noqa
+                    return ('exception', type(e).__name__)
+
+                def shape(x):
+                    if isinstance(x, (list, tuple)):
+                        return [type(x).__name__] + [shape(y) for y in x]
+                    base = next((b.__name__ for b in (bool, int, str, bytes) if isinstance(x, b)), type(x).__name__)
+                    return (base, repr(x))
+                try:
+                    back = pickle.loads(pickle.dumps(v))
+                    pick = 'pickles' if back == v else 'pickles to something else'
+                except Exception as e:      # noqa
+                    pick = 'cannot be pickled: ' + type(e).__name__
+                return ('return', shape(v), pick)
+            for t in inputs:
+                R.count('literal-values', (named, k, t), nontrivial=True)
+                a, b = obs(gc, t), obs(ge, t)
+                if a != b:
+                    R.counterexample('literal-values', 'literal-argument-is-not-the-value', dict(case, text=repr(t)), b, a)
+                    break
+            else:
+                R.traces += 1
+
+
 def nested_python_arguments(R):
     sys.path.insert(0, core.REPO)
     from sourcer import Grammar
@@ -261,6 +318,7 @@ def run(R):
     R.prove('Props/C06.v')
     python_arguments(R)
     nested_python_arguments(R)
+    literal_values(R)
     inherited_templates(R)
     jobs, gid, pairs = [], 0, {}
     for named in (False, True):
